@@ -1,6 +1,7 @@
 package main
 
 import (
+	"bytes"
 	"fmt"
 	"regexp"
 	"sort"
@@ -85,6 +86,9 @@ type c05Variant struct {
 	back   map[string]string // predicate name in result -> original
 	store  string
 	detOrd bool
+	// baseFacts: facts that are not in src but pre-loaded into the store (store kind "merged-file": a file-backed
+	// read store under a merged store)
+	baseFacts []string
 }
 
 func permsOrSome(n int) [][]int {
@@ -163,7 +167,7 @@ func (p c05Prog) variants(thorough bool) []c05Variant {
 	var out []c05Variant
 	idR, idF := identity(len(p.rules)), identity(len(p.facts))
 	base := func(desc, src string, back map[string]string) {
-		out = append(out, c05Variant{desc, src, back, "multiarray", false})
+		out = append(out, c05Variant{desc: desc, src: src, back: back, store: "multiarray"})
 	}
 	base("as written", p.render(idR, idF, 0, nil, false, true), nil)
 	for _, ro := range permsOrSome(len(p.rules)) {
@@ -205,10 +209,17 @@ func (p c05Prog) variants(thorough bool) []c05Variant {
 	// stores and deterministic order
 	kinds := mg.StoreKinds
 	for _, k := range kinds {
-		out = append(out, c05Variant{"store " + k, p.render(idR, idF, 0, nil, false, true), nil, k, false})
+		out = append(out, c05Variant{desc: "store " + k, src: p.render(idR, idF, 0, nil, false, true), store: k})
 	}
-	out = append(out, c05Variant{"WithDeterministicOrder", p.render(idR, idF, 0, nil, false, true), nil, "multiarray", true})
-	out = append(out, c05Variant{"WithDeterministicOrder + reversed clauses", p.render(permsOrSome(len(p.rules))[len(permsOrSome(len(p.rules)))-1], idF, 0, rev, false, true), revBack, "simple", true})
+	out = append(out, c05Variant{desc: "WithDeterministicOrder", src: p.render(idR, idF, 0, nil, false, true), store: "multiarray", detOrd: true})
+	out = append(out, c05Variant{desc: "WithDeterministicOrder + reversed clauses", src: p.render(permsOrSome(len(p.rules))[len(permsOrSome(len(p.rules)))-1], idF, 0, rev, false, true), back: revBack, store: "simple", detOrd: true})
+	if !p.temporal {
+		// the base facts in a file-backed (simple column) store that is the read part of a merged store; the program
+		// text holds declarations and rules only
+		noFacts := p
+		noFacts.facts = nil
+		out = append(out, c05Variant{desc: "store merged-file (base facts in a file-backed read store)", src: noFacts.render(idR, nil, 0, nil, false, true), store: "merged-file", baseFacts: p.facts})
+	}
 	// plain repetitions: a different hash-map iteration order on each run (sampled, not enumerated)
 	reps := 3
 	if thorough {
@@ -226,7 +237,28 @@ func c05Eval(v c05Variant, temporal bool) ([]string, error) {
 	if err != nil {
 		return nil, fmt.Errorf("analysis: %w", err)
 	}
-	store := mg.NewStore(v.store)
+	var store factstore.FactStore
+	if v.store == "merged-file" {
+		var texts []string
+		for _, f := range v.baseFacts {
+			texts = append(texts, strings.TrimSuffix(strings.TrimSpace(f), "."))
+		}
+		mem := factstore.NewMultiIndexedArrayInMemoryStore()
+		for _, a := range evalGround(texts) {
+			mem.Add(a)
+		}
+		var buf bytes.Buffer
+		if err := (factstore.SimpleColumn{}).WriteTo(mem, &buf); err != nil {
+			return nil, fmt.Errorf("writing the base facts: %w", err)
+		}
+		file, err := factstore.NewSimpleColumnStoreFromBytes(buf.Bytes())
+		if err != nil {
+			return nil, fmt.Errorf("opening the base facts: %w", err)
+		}
+		store = factstore.NewMergedStore([]factstore.ReadOnlyFactStore{file}, factstore.NewMultiIndexedArrayInMemoryStore())
+	} else {
+		store = mg.NewStore(v.store)
+	}
 	opts := []engine.EvalOption{}
 	var ts *factstore.TemporalStore
 	if temporal {
@@ -334,6 +366,19 @@ func c05Corpus(thorough bool) []c05Prog {
 		}
 	}
 	addPool(mp, mIdx, [][]string{{"e(1,2)", "e(2,3)", "e(3,1)"}, {"e(1,1)", "e(1,2)", "e(2,7)", "e(8,3)"}}, []string{"e", "p", "q", "w", "v"}, "M")
+	// programs whose result depends on how the store answers pattern queries with several constants and membership
+	// tests: derivation into a predicate that also has base facts, aggregation over a single atom with constants
+	fDecl := []string{"Decl e(A,B)."}
+	fFacts := []string{"e(1,2).", "e(2,3).", "e(3,1).", "e(3,3).", "e(2,2)."}
+	for i, rules := range [][]string{
+		{"e(X,Z) :- e(X,Y), e(Y,Z).", "q(X,Y) :- e(X,Y), !e(Y,X)."},
+		{"c(N) :- e(3,3) |> do fn:group_by(), let N = fn:count()."},
+		{"c(N) :- e(1,3) |> do fn:group_by(), let N = fn:count().", "d(X) :- e(X,3), !e(X,2)."},
+		{"e(X,X) :- e(X,_).", "w(X) :- e(X,_), !e(1,X)."},
+		{"e(Y,X) :- e(X,Y).", "s(X,N) :- e(X,3) |> do fn:group_by(X), let N = fn:count()."},
+	} {
+		out = append(out, c05Prog{name: fmt.Sprint("F", i), decls: fDecl, rules: rules, facts: fFacts, preds: []string{"e", "q", "c", "d", "w", "s"}})
+	}
 	// aggregation
 	ar := gen.AggRules([]string{"fn:count()", "fn:sum(V)", "fn:collect_distinct(V)", "fn:max(V)"})
 	for i := 0; i < len(ar); i++ {
